@@ -75,7 +75,14 @@ def cases(tier):
             fault = {"code": draw(st.sampled_from(["Client", "Client.Custom", "Server", "Server.X.Y"])),
                      "msg": draw(st.sampled_from(["boom", "ünï ✓", "x" * 50]))}
         call = draw(st.sampled_from(["pos", "pos", "kw", "mixed"]))
+        # an earlier call through the SAME function handle (f = server.service.m; f(..); f(..))
+        # with every argument present: nothing of it may survive into the judged call
+        prev = None
+        if style not in ("bare_complex", "empty") and m["args"] and draw(st.integers(0, 2)) == 0:
+            vgf = values.ValueGen(U, special_floats=False, full=True)
+            prev = [draw(vgf.value(t)) for _, t in m["args"]]
         return {"U": U, "m": m, "args": args, "rets": rets, "style": style, "outcome": outcome,
+                "prev": prev,
                 "fault": fault, "call": call, "variant": 0, "validator": None, "prot": "xml"}
     return one()
 
@@ -187,8 +194,15 @@ def run_case(case, rec):
         kw = {n: v for n, v in list(zip(names, natives))[half:] if v is not None}
     null_exc = None
     null_res = None
+    handle = getattr(null.service, m["name"])
+    if case.get("prev"):
+        try:
+            handle(*[B.to_native(t, j) for (_, t), j in zip(m["args"], case["prev"])])
+        except Exception:
+            pass
+        R.reset()
     try:
-        null_res = getattr(null.service, m["name"])(*a, **kw)
+        null_res = handle(*a, **kw)
     except Exception as e:
         null_exc = e
     _check_args(case, B, R.calls, "null", fails)
